@@ -430,6 +430,9 @@ CLASSES = [
     (False, [("c", "/")]),
     (True, [("c", "/")]),
     (False, [("c", "k"), ("c", "]")]),
+    (True, [("r", "z", "a")]),       # descending ranges: no documented meaning (C01 counts them as
+    (False, [("r", "c", "a")]),      # unspecified) but building and matching must stay total (C05)
+    (True, [("c", "/"), ("r", "b", "a")]),
 ]
 FORMS = [None, ":", (0, 1), (1,), (2,), (0, None), (1, None), (2, None), (0, 2), (1, 3), (2, 3),
          (1, 1), (0, 3), (3,)]
@@ -498,6 +501,11 @@ def _branches_small():
         ("alt", [[("lit", "a"), ("tree", True, False)], B]),
         ("alt", [[("lit", "a"), ("tree", True, True), ("lit", "b")]]),
         ("alt", [[("one",), ("lit", "b")]]),
+        ("alt", [[("lit", "a"), ("sep",), ("lit", "b")]]),
+        ("alt", [[("sep",), ("lit", "b")]]),
+        ("rep", [("lit", "a"), ("sep",), ("lit", "b")], (1,)),
+        ("rep", [("lit", "a"), ("sep",)], (2,)),
+        ("rep", [("sep",), ("lit", "a")], (2,)),
         ("rep", A, None), ("rep", A, ":"), ("rep", A, (0, 1)), ("rep", A, (2,)), ("rep", A, (1, 2)),
         ("rep", A, (0, 2)), ("rep", A, (2, None)),
         ("rep", [("lit", "a"), ("sep",)], None), ("rep", [("lit", "a"), ("sep",)], (1, None)),
@@ -583,5 +591,42 @@ EXTRA_CORPUS = [
     "a/**/b/**/c", "**/a/**", "/**/{var,.var}/**/*.log", "(?-i)photos/**/*.(?i){jpg,jpeg}",
     "<[!.]*/>[!.]*", "{*.{go,rs}}", "<<a:1,2>b:1,2>", "{a,{b,{c,d}}}", "a{b,c}d", "a<b:0,1>c",
     "*{a,b*}", "{a*,b}", "a/<b/**:1,>", "$-*.*", "(?i)a/(?-i)b", "{(?i)a,b}c", "a{/b,/c}",
-    "a/{b/,c/}d", "<a/b/:1,2>c", "/{a,b}", "/<a:1,>", "{a,b}{c,d}", "<a:1,2><b:0,1>",
+    "a/{b/,c/}d", "<a/b/:1,2>c", "{a/b}c*", "<a/b:1>c*", "{a/b}/c", "<a/:2>b*", "a{/b}c*", "{a/b}c/*",
+    "x/{a/b}c?", "<a/:2>b/*", "{a/b}{c}*", "{src/bin,tests}/*.rs", "src/{bin/*,lib}.rs", "<*/:1,2>*.rs",
+    "{a/b,c}/*", "a/{b/c,d}/*", "<a/:1,2>b", "x/{a/**,b}", "{a/**,b}/c", "<a/b:2>/*", "[!z-a]", "[z-a]", "src/[!9-0]*.rs", "{a,b/[!z-a]}", "<[!b-a]:1,3>",
+    "<</a:1,>:0,>b", "<{</a:1,>,</b:1,>}:0,>", "<</a:1,>>b", "<</a:1,>:0,1>b", "{</a:1,>,b}", "<</**/a:1,>:0,>b",
+    "<{/a,/b}:1,>", "<</a:1,2>:0,2>", "/{a,b}", "/<a:1,>", "{a,b}{c,d}", "<a:1,2><b:0,1>",
 ]
+
+
+def depth_varying_tokens():
+    """Tokens whose matches span a varying number of components (for the depth / exhaustiveness /
+    partition folds, whose terms combine non-commutatively across separators)."""
+    L = lambda t: [("lit", t)]
+    S = ("sep",)
+    return [
+        [("alt", [L("a"), L("a") + [S] + L("b")])],                       # {a,a/b}
+        [("alt", [L("a") + [S], L("a") + [S] + L("b") + [S]])],           # {a/,a/b/}
+        [("alt", [L("c"), L("c") + [S] + L("d")])],                       # {c,c/d}
+        [("alt", [[S] + L("c"), [S] + L("c") + [S] + L("d")])],           # {/c,/c/d}
+        [("rep", L("a") + [S], (1, 2))],                                  # <a/:1,2>
+        [("rep", L("a") + [S], (0, 1))],                                  # <a/:0,1>
+        [("rep", [S] + L("a"), (1, 2))],                                  # </a:1,2>
+        [("alt", [L("a"), [("zom",)] + [S] + L("b")])],                   # {a,*/b}
+        [("alt", [L("a") + [S] + L("b")])],                               # {a/b}
+        L("x"),
+        [("zom",)],
+    ]
+
+
+def enum_depth_pairs(triples=False):
+    toks = depth_varying_tokens()
+    glues = [[], [("sep",)]]
+    for x in toks:
+        for g in glues:
+            for y in toks:
+                yield normalize(x + g + y)
+                if triples:
+                    for g2 in glues:
+                        for z in toks[:6]:
+                            yield normalize(x + g + y + g2 + z)
